@@ -30,7 +30,7 @@ TECHNIQUE = (
     "first-principles recomputation (python loops over charging_rates and the network template) as oracle"
 )
 RULE = (
-    "networks N2/N4/N5 (3 stations, heterogeneous voltages, mixed-sign/fractional constraints) in several registration/constraint orders x session 1..k-subsets x {uncontrolled, scripted}; "
+    "networks N2/N4/N5 (3 stations, heterogeneous voltages, mixed-sign/fractional constraints) and N14 (every station on one phase at -120 degrees) in several registration/constraint orders x session 1..k-subsets x {uncontrolled, scripted}; "
     "per run: all 64 ordered subsets of 4 constraint ids (+None, +duplicates), thresholds {0,.1,1,100}, 6 phase orders; non-trivial = run with >=2 stations drawing current in the same period"
 )
 ASSUMPTIONS = [
@@ -50,6 +50,7 @@ ORDERS = {
     "N2": [(None, None, None), (["PS-C", "PS-A", "PS-B"], [2, 0, 3, 1], "aux")],
     "N4": [(None, None, "upd"), (["PS-B", "PS-C", "PS-A"], [1, 2, 0], None)],
     "N5": [(["PS-C", "PS-B", "PS-A"], [2, 1, 0], "aux")],
+    "N14": [(None, None, None)],
 }
 
 
@@ -175,6 +176,7 @@ def execute(item, only=None):
             for perm in itertools.permutations(names, kk):
                 queries.append(list(perm))
         queries.append([names[-1], names[0], names[-1]])  # duplicate id
+        queries.append([])  # nothing requested: nothing returned
         for q in queries:
             for flag in (False, True):
                 info["queries"] += 1
